@@ -372,3 +372,21 @@ def main(ctx):
     ctx.sample({'leg': 'V', 'event': {'cs': {k: v for k, v in events[nR]['cs'].items() if k != 'q'}}})
     return ctx.finish(rule='M/R: members of sizes <<2, 1>> (thorough <<2, 1, 2>>) x both axes x retain on / off x every int / slice / 2-list / mask key on the Quilt axis x 4 keys on the opposite axis; every enumerated selection replayed on real Quilts (30% over store-backed Buses with max_persist None / 1 / 2). '
                            'V: random Quilts (1-4 members of 1-3 positions, 1-3 opposite labels, 4 dtype kinds, random block layouts) x iloc / loc / getitem / to_frame / shape / labels / values / iter_series(_items) / iter_array / iter_tuple / iter_window / head; random Batch chains of 1-3 operations (selection, fillna, isna / notna, dropna, directional fill; direct or through apply; with and without max_workers) and their export')
+
+
+def replay(rec):
+    import json
+    import random
+    case = rec.get('case') or {}
+    print('clause   :', rec.get('clause'))
+    if 'cs' in case:
+        print('call     :', json.dumps({k: v for k, v in case['cs'].items() if k != 'q'}))
+        print('now      :', json.dumps(run_quilt(case['cs'], random.Random(0)))[:1500])
+    else:
+        ev = {'members': case['members'], 'ops': case['ops']}
+        items, export_ok = run_batch(ev, random.Random(0))
+        print('chain    :', json.dumps(case['ops']))
+        print('now      :', json.dumps(items)[:1500], 'export ok:', export_ok)
+    print('recorded :', json.dumps(rec.get('actual'))[:1500])
+    print('expected :', json.dumps(rec.get('expected'))[:1500])
+    return 0
